@@ -10,4 +10,64 @@ theorem arrSum_eq {A} [AddCommMonoid A] (a : Arr A) :
     arrSum a = ∑ i ∈ range a.s0.toNat, ∑ j ∈ range a.s1.toNat, a.get i j := by
   unfold arrSum; simp only [sumRange_eq]
 
+theorem sumList_eq {A} [AddCommMonoid A] {β} (l : List β) (f : β → A) : sumList l f = (l.map f).sum := by
+  unfold sumList
+  have : ∀ (a : A), List.foldl (fun acc x => acc + f x) a l = a + (l.map f).sum := by
+    induction l with
+    | nil => intro a; simp
+    | cons h t ih => intro a; simp [ih, add_assoc]
+  simpa using this 0
+
+/-- kernel value at an integer output-frequency coordinate `U` -/
+noncomputable def kerAt (α : ℝ) (m off : ℤ) (x U : ℤ) : ℂ :=
+  Complex.exp (-(2 * Real.pi * Complex.I) * (α * ((cc m x + off : ℤ) : ℝ) * ((U : ℤ) : ℝ) : ℝ))
+
+/-- with the shift `-(U0 + ⌊M/2⌋)` the output sample `u` of a window of any length `M` sits at coordinate `U0 + u` -/
+theorem ker_window (α : ℝ) (m M off U0 : ℤ) (x u : ℤ) :
+    ker α m M off (-(((U0 + M / 2 : ℤ)) : ℝ)) x u = kerAt α m off x (U0 + u) := by
+  unfold ker kerAt cc
+  congr 1
+  push_cast
+  ring
+
+/-- the field at integer frequency coordinate `(U, V)`: the one-sample window there -/
+noncomputable def fieldAt (fs : List (Fld ℂ)) (αr αc : ℝ) (U V : ℤ) : ℂ :=
+  (propagateWindow fs αr αc 1 1 U V).get 0 0
+
+theorem propagateWindow_get (fs : List (Fld ℂ)) (αr αc : ℝ) (M N U0 V0 u v : ℤ) :
+    (propagateWindow fs αr αc M N U0 V0).get u v
+      = (fs.map fun f => ((Real.sqrt |αr * αc| : ℝ) : ℂ) *
+          ∑ y ∈ range f.arr.s1.toNat, (∑ x ∈ range f.arr.s0.toNat, kerAt αr f.arr.s0 f.o0 x (U0 + u) * f.arr.get x y)
+            * kerAt αc f.arr.s1 f.o1 y (V0 + v)).sum := by
+  unfold propagateWindow
+  simp only [sumList_eq, dft2_get_eq, if_true, dft2Sum, RealLike.ofInt, ker_window]
+
+/-- **a window only selects**: sample `(u, v)` of any evaluated window is the field at coordinate `(U0 + u, V0 + v)` -/
+theorem window_selects (fs : List (Fld ℂ)) (αr αc : ℝ) (M N U0 V0 u v : ℤ) :
+    (propagateWindow fs αr αc M N U0 V0).get u v = fieldAt fs αr αc (U0 + u) (V0 + v) := by
+  unfold fieldAt
+  rw [propagateWindow_get, propagateWindow_get]
+  simp only [add_zero]
+
+theorem sum_range_shift (g : ℤ → ℝ) (M : ℕ) (U0 : ℤ) :
+    ∑ u ∈ range M, g (U0 + u) = ∑ U ∈ Finset.Ico U0 (U0 + M), g U := by
+  refine Finset.sum_nbij' (fun u => U0 + (u : ℤ)) (fun U => (U - U0).toNat) ?_ ?_ ?_ ?_ ?_
+  · intro u hu; simp only [mem_range, mem_Ico] at hu ⊢; omega
+  · intro U hU; simp only [mem_range, mem_Ico] at hU ⊢; omega
+  · intro u _; simp
+  · intro U hU; simp only [mem_Ico] at hU; omega
+  · intro u _; rfl
+
+/-- the energy of an evaluated window as a sum over its integer frequency coordinates -/
+theorem window_energy_eq (fs : List (Fld ℂ)) (αr αc : ℝ) (M N : ℕ) (U0 V0 : ℤ) :
+    arrSum (intensity (R := ℝ) (propagateWindow fs αr αc M N U0 V0))
+      = ∑ U ∈ Finset.Ico U0 (U0 + M), ∑ V ∈ Finset.Ico V0 (V0 + N), Complex.normSq (fieldAt fs αr αc U V) := by
+  rw [arrSum_eq]
+  simp only [intensity, NormSqLike.normSq, window_selects]
+  have h0 : (propagateWindow fs αr αc M N U0 V0).s0 = M := rfl
+  have h1 : (propagateWindow fs αr αc M N U0 V0).s1 = N := rfl
+  simp only [h0, h1, Int.toNat_natCast]
+  rw [sum_range_shift (fun U => ∑ v ∈ range N, Complex.normSq (fieldAt fs αr αc U (V0 + v))) M U0]
+  exact sum_congr rfl fun U _ => sum_range_shift (fun V => Complex.normSq (fieldAt fs αr αc U V)) N V0
+
 end Lentil
